@@ -4,8 +4,19 @@ from .cfg import Typestate, edges, dominators, postdominators, ev_dominates, ev_
 from .facts import ASSIGN_OPS
 
 
-def strip_addr(fn, n):
+def see_bound(fn, n):
+    """a parameter of an expanded helper (sa/flatten.py) stands for the argument it was bound to"""
     n = fn.d(n)
+    for _ in range(6):
+        if n is not None and n["k"] == "var" and n.get("sc") == "local" and "$" in n["n"] and fn._bound(n["n"]) and n["n"] in fn.aliases():
+            n = fn.d(fn.aliases()[n["n"]])
+        else:
+            break
+    return n
+
+
+def strip_addr(fn, n):
+    n = see_bound(fn, n)
     while n is not None and n["k"] in ("cast", "decay") and n.get("ck") in ("BitCast", "NoOp", "ArrayToPointerDecay", None):
         if n["k"] == "cast" and n.get("ck") not in ("BitCast", "NoOp"):
             break
@@ -17,7 +28,7 @@ def strip_addr(fn, n):
 
 def arg(fn, call, i):
     a = call["a"]
-    return fn.d(a[i]) if i < len(a) else None
+    return see_bound(fn, a[i]) if i < len(a) else None
 
 
 def resolve(fn, n):
@@ -374,10 +385,49 @@ def cmp_norm(fn, cond, pol):
         while n["k"] == "un" and n["op"] == "!":
             pol = not pol
             n = fn.d(n["a"][0])
+    # a boolean temporary (`const bool last = (i == n); if (!last)`) stands for the comparison it was initialised with
+    for _ in range(4):
+        if n["k"] == "var" and n.get("sc") == "local" and n["n"] in fn.aliases():
+            m = fn.aliases()[n["n"]]
+            while m is not None and m["k"] == "cast":
+                m = fn.d(m["a"][0])
+            if m is not None and ((m["k"] == "bin" and m["op"] in NEG) or (m["k"] == "un" and m["op"] == "!")):
+                n = m
+                while n["k"] == "un" and n["op"] == "!":
+                    pol = not pol
+                    n = fn.d(n["a"][0])
+                continue
+        break
     if n["k"] == "bin" and n["op"] in NEG:
         op = n["op"] if pol else NEG[n["op"]]
         return (fn.d(n["a"][0]), op, fn.d(n["a"][1]))
     return (n, "!=" if pol else "==", None)
+
+
+def _expand_logic(fn, cond, pol, blk, depth=0):
+    """a decision on a boolean temporary that holds a conjunction / disjunction implies decisions on its operands:
+    `ok = a && b; if (ok)` => a and b; `bad = a || b; if (!bad)` => !a and !b"""
+    n = fn.d(cond)
+    p = pol
+    while n is not None and ((n["k"] == "un" and n["op"] == "!") or n["k"] == "cast"):
+        if n["k"] == "un":
+            p = not p
+        n = fn.d(n["a"][0])
+    if depth < 3 and n is not None and n["k"] == "var" and n.get("sc") == "local" and n["n"] in fn.aliases():
+        m = fn.aliases()[n["n"]]
+        while m is not None and m["k"] == "cast":
+            m = fn.d(m["a"][0])
+        if m is not None and m["k"] == "bin" and ((m["op"] == "&&" and p) or (m["op"] == "||" and not p)):
+            out = []
+            for a in m["a"]:
+                out.extend(_expand_logic(fn, a, p, blk, depth + 1))
+            return out
+    if depth > 0 and n is not None and n["k"] == "bin" and ((n["op"] == "&&" and p) or (n["op"] == "||" and not p)):
+        out = []
+        for a in n["a"]:
+            out.extend(_expand_logic(fn, a, p, blk, depth + 1))
+        return out
+    return [(cond, pol, blk)]
 
 
 def guards(fn, ev, dom=None):
@@ -417,9 +467,9 @@ def guards(fn, ev, dom=None):
         r0 = s0 == target or reaches(s0, b)
         r1 = s1 == target or reaches(s1, b)
         if r0 and not r1:
-            out.append((c0, p0, b))
+            out.extend(_expand_logic(fn, c0, p0, b))
         elif r1 and not r0:
-            out.append((c1, p1, b))
+            out.extend(_expand_logic(fn, c1, p1, b))
     return out
 
 
